@@ -242,6 +242,10 @@ def replay(c):
     try:
         ir = front.compile_module(c["module"], c["import_dirs"], d)
         src_text, entries = structs.gen_driver2(ir, c["module"] + ".h")
+        # only the entry point under replay: other entries of the module may not compile (Equals of
+        # parameterised structures), and the symbolic run dropped those as well
+        src_text = "\n".join(l for l in src_text.splitlines()
+                             if not l.startswith('extern "C"') or (" %s(" % c["fn"]) in l) + "\n"
         with open(os.path.join(d, "drv2.cc"), "w") as f:
             f.write(src_text)
         a, b = c["a"], c["b"]
@@ -311,6 +315,11 @@ def main(tier):
             sig = json.dumps(key, sort_keys=True)
             seen[sig] = seen.get(sig, 0) + 1
             if seen[sig] > 1:
+                continue
+            # at most a dozen native replays per obligation kind: a runtime-level defect shows in every structure
+            per_kind = "kind:%s:%s" % (c["kind"], c["what"].split(" ", 1)[-1][:60])
+            seen[per_kind] = seen.get(per_kind, 0) + 1
+            if seen[per_kind] > 12:
                 continue
             ok, observed = replay(c)
             replayed += 1
